@@ -6,8 +6,10 @@
    inside Coq by Check/C17.v), that results repeat, that a queried document saves and answers
    like its never-queried twin, that writing into a bound primitive's vertex/normal arrays
    changes nothing reachable from the document.  numpy aliasing is observed, not modelled. *)
-From Coq Require Import List NArith Bool.
-From PC Require Import Model.Purity Proofs.Purity.
+From Coq Require Import List ZArith NArith Bool.
+From PC Require Import Base.Outcome Base.Py Base.Mat Gen.Transforms Model.Transforms Model.Strips Model.Triangulate
+  Model.IndexedList Model.Traverse Model.PurityQueries Proofs.PurityQueries.
+From PC Require Import Model.Purity Proofs.Purity.     (* last: its [run], [op] are the ones meant below *)
 Import ListNotations.
 
 Section C17.
@@ -143,3 +145,85 @@ Example C17_observable_write_refutes :
   let bad := fun (h : heap) => (upd h l_idx 0%N, 0%N) in
   snd (tsave (fst (bad theap0))) <> snd (tsave theap0).
 Proof. vm_compute. discriminate. Qed.
+
+(* ================================================================================================
+   CONCRETE queries: for Polylist.triangleset() with its cache (the computation is the C11 family's
+   Model.Triangulate.triangleset), CImage data with its cache, getInputList(), library look-ups
+   (L[key], L.get, key in L on the C14 family's Model.IndexedList) and Scene.objects (the C12
+   family's Model.Traverse.scene_objects) the footprint discipline is PROVED, so the history
+   theorems hold for them without any hypothesis.  What remains measured for these kinds is that the
+   Python code does what these Gallina models say (the correspondences of C11/C12/C14 for the
+   computations, and the write-set measurement of Check/C17.v for the absence of other writes). *)
+
+(* writes stay inside the declared hidden fields *)
+Theorem C17_concrete_writes_declared : forall R (O : ops R) q (s : cdoc R),
+  cobs (fst (cexec O q s)) = cobs s /\
+  (~ In FTriCache (cdeclared q) -> c_tri (fst (cexec O q s)) = c_tri s) /\
+  (~ In FImgCache (cdeclared q) -> c_img (fst (cexec O q s)) = c_img s).
+Proof. intros R O q s. split; [apply c_frame | apply c_writes_declared]. Qed.
+Print Assumptions C17_concrete_writes_declared.
+
+(* results are functions of the observable part, caches stay coherent *)
+Theorem C17_concrete_results_observable : forall R (O : ops R) q (s s' : cdoc R),
+  ccoherent s -> ccoherent s' -> cobs s = cobs s' ->
+  snd (cexec O q s) = snd (cexec O q s') /\ ccoherent (fst (cexec O q s)).
+Proof. intros R O q s s' Hc Hc' Ho. split; [apply c_result; assumption | apply c_exec_coherent; exact Hc]. Qed.
+Print Assumptions C17_concrete_results_observable.
+
+(* any history of these queries with saves interleaved, from ANY state: the observable part and
+   every saved output are those of the history with the queries erased - no hypothesis *)
+Theorem C17_concrete_history : forall R (O : ops R) ops (s : cdoc R),
+  cobs (fst (srun _ _ _ _ (cexec O) csave s ops)) =
+  cobs (fst (srun _ _ _ _ (cexec O) csave s (saves_only_s cquery ops))) /\
+  snd (srun _ _ _ _ (cexec O) csave s ops) = snd (srun _ _ _ _ (cexec O) csave s (saves_only_s cquery ops)).
+Proof.
+  intros R O ops s.
+  apply (s_history_gen _ _ _ _ _ cobs (cexec O) csave (c_frame R O) (c_save_obs R) ops s s eq_refl).
+Qed.
+Print Assumptions C17_concrete_history.
+
+(* from a freshly loaded/constructed document (nothing cached), after any history: a repeated
+   query returns the same result, and every query answers what the never-queried twin answers *)
+Theorem C17_concrete_repeatable : forall R (O : ops R) ops q (s : cdoc R), cfresh s ->
+  let s1 := fst (srun _ _ _ _ (cexec O) csave s ops) in
+  snd (cexec O q (fst (cexec O q s1))) = snd (cexec O q s1) /\
+  snd (cexec O q s1) = snd (cexec O q (fst (srun _ _ _ _ (cexec O) csave s (saves_only_s cquery ops)))).
+Proof.
+  intros R O ops q s Hf s1. pose proof (c_fresh_coherent R s Hf) as Hc. split.
+  - apply (s_repeatable _ _ _ _ cobs (cexec O) ccoherent (c_frame R O) (c_result R O) (c_exec_coherent R O)).
+    apply (s_run_coherent _ _ _ _ (cexec O) csave ccoherent (c_exec_coherent R O) (c_save_coherent R)). exact Hc.
+  - apply (s_vs_twin _ _ _ _ _ cobs (cexec O) csave ccoherent (c_frame R O) (c_result R O) (c_exec_coherent R O)
+             (c_save_obs R) (c_save_coherent R)). exact Hc.
+Qed.
+Print Assumptions C17_concrete_repeatable.
+
+(* library look-ups leave the list and its id index exactly as they are *)
+Theorem C17_concrete_lookup_pure : forall R (O : ops R) l (s : cdoc R),
+  fst (cexec O (QLookup l) s) = s /\ snd (cexec O (QLookup l) s) = RLookup R (il_lookup (d_lib R s) l).
+Proof. intros. split; reflexivity. Qed.
+Print Assumptions C17_concrete_lookup_pure.
+
+(* Non-vacuity: a polylist (a quad and a triangle, two inputs per corner), a library of three
+   objects two of which share an id, a scene with a translated geometry instance, an image. *)
+Definition ex_doc : cdoc Z :=
+  CDoc Z [4; 3]%nat [[0;0]; [1;0]; [2;1]; [3;1]; [0;2]; [2;2]; [3;0]]%N
+       [(1, [(0, 1, 50, None)]); (2, [(1, 2, 51, None)]); (3, [(1, 3, 52, Some 0); (1, 3, 53, Some 1)])]%N
+       (of_list [(1, 7); (2, 8); (3, 7)]%N)
+       [SNode (translate_matrix zops 1%Z 2%Z 3%Z) [SGeom 7 [(1, 10)]%N; SCam 4]]
+       99%N [] None None.
+
+Example C17_concrete_nonvacuous :
+  let ops := [SQ QTriangleset; SQ (QLookup (LGet 7)); SSave; SQ QImageData; SQ QTriangleset;
+              SQ (QSceneObjects 0); SQ QInputList; SSave] in
+  let s1 := fst (srun _ _ _ _ (cexec zops) csave ex_doc ops) in
+  snd (cexec zops QTriangleset ex_doc) =
+    RTri Z (Ok [([0;0],[1;0],[2;1]); ([0;0],[2;1],[3;1]); ([0;2],[2;2],[3;0])]%N) /\
+  c_tri s1 = Some [([0;0],[1;0],[2;1]); ([0;0],[2;1],[3;1]); ([0;2],[2;2],[3;0])]%N /\
+  c_img s1 = Some 99%N /\
+  snd (cexec zops (QLookup (LGet 7)) s1) = RLookup Z (Ok (Some 3%N)) /\
+  snd (cexec zops (QLookup (LItem (KId 9))) s1) = RLookup Z (Raise PyKeyError) /\
+  snd (cexec zops QInputList s1) = RInputs Z [(0, 1, 50, None); (1, 2, 51, None); (1, 3, 52, Some 0); (1, 3, 53, Some 1)]%N /\
+  length (match snd (cexec zops (QSceneObjects 0) s1) with RBound _ l => l | _ => [] end) = 1%nat /\
+  snd (srun _ _ _ _ (cexec zops) csave ex_doc ops) = [[4;3;0;0;1;0;2;1;3;1;0;2;2;2;3;0;7;8;7]; [4;3;0;0;1;0;2;1;3;1;0;2;2;2;3;0;7;8;7]]%N /\
+  cfresh ex_doc.
+Proof. vm_compute. repeat split; reflexivity. Qed.
